@@ -823,6 +823,13 @@ def arraypat_fn(text, features):
     arm, n2 = re.subn(r"for\s+\(\s*(\w+)\s*,\s*(\w+)\s*\)\s+in\s+%s\.suffix\.iter\(\)\.zip\(\s*values\[\s*(\w+)\s*\.\.\s*\]\.iter\(\)\s*\)\s*\{" % pa,
                       lambda mm: loop(mm.group(1), mm.group(2), pa + ".suffix", mm.group(3), "values.len() - %s" % mm.group(3), "after_suffix").replace(
                           "invariant zn_", "invariant %s == values@.len() - %s.suffix@.len(), zn_" % (mm.group(3), pa)), arm)
+    if n2 == 0:
+        # std's `rev()`: the suffix patterns zipped with the values walked from the back -- element k is values[len - 1 - k]; the contract still demands
+        # the LAST |suffix| elements in order (named so that such a rewrite is judged, not lost)
+        def rloop(mm):
+            t = loop(mm.group(1), mm.group(2), pa + ".suffix", "values.len() - %s.suffix.len()" % pa, "%s.suffix.len()" % pa, "after_suffix")
+            return t.replace("&values[values.len() - %s.suffix.len() + z_]" % pa, "&values[values.len() - 1 - z_]")
+        arm, n2 = re.subn(r"for\s+\(\s*(\w+)\s*,\s*(\w+)\s*\)\s+in\s+%s\.suffix\.iter\(\)\.zip\(\s*values\.iter\(\)\.rev\(\)\s*\)\s*\{" % pa, rloop, arm)
     if (n1, n2) != (1, 1) or re.search(r"\b(iter|zip)\b", arm):
         raise AnchorLost("pattern_matches_value_with_semantics: the array arm is outside the transcription rules %r" % ((n1, n2),))
     return ("fn array_arm(%s: &PatternArray, detached_value: Value, env: &mut Environment, p: &Interpreter, semantics: PatternMatchSemantics) -> (res: Result<bool, MechError>)\n"
